@@ -19,6 +19,7 @@ var (
 	fieldNames = []string{"item", "price", "note", "sku"}
 	listNames  = []string{"rows", "lines", "entries"}
 	imgNames   = []string{"logo", "chart", "photo"}
+	condNames  = []string{"vip", "paid", "draft"}
 )
 
 var bodyPalette = []*ops.Fmt{nil, {Bold: true}, {Italic: true}, {Bold: true, Color: "FF0000"}, {Size: 14, Font: "Arial"}, {Underline: true, Highlight: "yellow"}, {Strike: true, Color: "0000FF"}}
@@ -28,6 +29,52 @@ var litWords = []string{"Hello", "world", " ", "a", "x1", "Total:", "42", "(z)",
 var plainWords = []string{"Hello", "world", "a", "x1", "Total:", "42", "(z)", "中文", "é", "<&>", "No. ", "-", "😀"}
 var braceWords = []string{"{", "}", "{{", "}}", "{ {", "} }", "{}"}
 var valueExtras = []string{"{", "}", "}}", "{x}", "a{b", "} {"}
+
+// blanks draws the white space between a directive keyword and its name: the one documented blank in about half of the
+// draws, otherwise one to three blanks/tabs (spellings the documentation does not show; see scan.go).
+func blanks(t *rapid.T, label string) string {
+	return rapid.SampledFrom([]string{" ", " ", " ", " ", " ", "  ", "\t", "   ", " \t", "\t ", "\t\t", "  \t"}).Draw(t, label)
+}
+
+// Look-alikes: texts that become a documented placeholder/directive once blanks are dropped or letters lower-cased, but
+// are none by the documentation (and by the library's own detection): literal text that has to stay as it is.
+var (
+	lookVar   = []string{"{{ %s }}", "{{%s }}", "{{ %s}}", "{{\t%s}}", "{{%s\t}}", "{{  %s  }}"}
+	lookOpen  = []string{"{{#each %s }}", "{{ #each %s}}", "{{#Each %s}}", "{{#EACH %s}}", "{{# each %s}}", "{{#each %s\t}}", "{{ #each  %s }}"}
+	lookClose = []string{"{{/each }}", "{{ /each}}", "{{/Each}}", "{{/ each}}", "{{/EACH}}", ""}
+	lookImage = []string{"{{#image %s }}", "{{ #image %s}}", "{{#Image %s}}", "{{#IMAGE %s}}", "{{# image %s}}"}
+)
+
+func lookalike(t *rapid.T, names []string) string {
+	switch rapid.IntRange(0, 5).Draw(t, "look") {
+	case 0:
+		return strings.Replace(rapid.SampledFrom(lookOpen).Draw(t, "look-open"), "%s", rapid.SampledFrom(listNames).Draw(t, "look-list"), 1)
+	case 1:
+		return rapid.SampledFrom(lookClose[:5]).Draw(t, "look-close")
+	case 2:
+		return strings.Replace(rapid.SampledFrom(lookImage).Draw(t, "look-image"), "%s", rapid.SampledFrom(imgNames).Draw(t, "look-img"), 1)
+	}
+	return strings.Replace(rapid.SampledFrom(lookVar).Draw(t, "look-var"), "%s", rapid.SampledFrom(names).Draw(t, "look-name"), 1)
+}
+
+// genCond draws one conditional block {{#if<blanks>cond}}words[{{else}}words]{{/if}} (brace-free words, no placeholders inside).
+func genCond(t *rapid.T) string {
+	w := func(l string) string {
+		return rapid.SampledFrom(plainWords).Draw(t, l) + rapid.SampledFrom([]string{"", " ", " ok"}).Draw(t, l+"2")
+	}
+	s := "{{#if" + blanks(t, "if-ws") + rapid.SampledFrom(condNames).Draw(t, "cond") + "}}" + w("if-body")
+	if rapid.IntRange(0, 2).Draw(t, "if-else") == 0 {
+		s += "{{else}}" + w("else-body")
+	}
+	return s + "{{/if}}"
+}
+
+// genCondPara: a paragraph of ONE format (cut into runs, also inside the markers) without non-text runs that holds one
+// conditional block between ordinary tokens.
+func genCondPara(t *rapid.T, names []string, pal []*ops.Fmt, words []string) *Para {
+	text := genTokens(t, names, 3, true, words) + genCond(t) + genTokens(t, names, 3, true, words)
+	return &Para{Runs: cutRuns(t, text, pal, 4, true)}
+}
 
 func pickFmt(t *rapid.T, pal []*ops.Fmt, label string) *ops.Fmt {
 	f := rapid.SampledFrom(pal).Draw(t, label)
@@ -43,8 +90,14 @@ func genTokens(t *rapid.T, names []string, maxTok int, braces bool, words []stri
 	n := rapid.IntRange(0, maxTok).Draw(t, "ntok")
 	var b strings.Builder
 	for i := 0; i < n; i++ {
-		k := rapid.IntRange(0, 9).Draw(t, "tok")
+		k := rapid.IntRange(0, 10).Draw(t, "tok")
 		switch {
+		case k == 10:
+			if braces && len(names) > 0 && rapid.Bool().Draw(t, "tok-look") {
+				b.WriteString(lookalike(t, names))
+			} else {
+				b.WriteString(rapid.SampledFrom(words).Draw(t, "lit"))
+			}
 		case k <= 3 && len(names) > 0:
 			b.WriteString("{{" + rapid.SampledFrom(names).Draw(t, "ph") + "}}")
 		case k == 4 && braces:
@@ -69,6 +122,9 @@ func cutRuns(t *rapid.T, text string, pal []*ops.Fmt, maxCuts int, sameFmt bool)
 	spans = append(spans, scanDirective(rs, "each")...)
 	spans = append(spans, scanDirective(rs, "image")...)
 	spans = append(spans, scanLiteral(rs, "{{/each}}")...)
+	spans = append(spans, scanDirective(rs, "if")...)
+	spans = append(spans, scanLiteral(rs, "{{else}}")...)
+	spans = append(spans, scanLiteral(rs, "{{/if}}")...)
 	cuts := map[int]bool{}
 	nc := rapid.IntRange(0, maxCuts).Draw(t, "ncuts")
 	for i := 0; i < nc && len(rs) > 1; i++ {
@@ -188,6 +244,11 @@ func genSets(t *rapid.T, customStyle string) []PSet {
 }
 
 func genBodyPara(t *rapid.T, customStyle string) *Para {
+	if rapid.IntRange(0, 11).Draw(t, "condpara") == 0 {
+		p := genCondPara(t, varNames, bodyPalette, litWords)
+		p.Sets = genSets(t, customStyle)
+		return p
+	}
 	p := &Para{}
 	text := genTokens(t, varNames, 7, true, litWords)
 	p.Runs = cutRuns(t, text, bodyPalette, 5, false)
@@ -219,11 +280,11 @@ func genImagePara(t *rapid.T, pal []*ops.Fmt, c *Case) *Para {
 	name := rapid.SampledFrom(imgNames).Draw(t, "img")
 	var text string
 	if _, ok := c.Data.Imgs[name]; !ok {
-		text = "{{#image " + name + "}}"
+		text = "{{#image" + blanks(t, "img-ws") + name + "}}"
 	} else {
-		text = around("pre") + "{{#image " + name + "}}" + around("post")
+		text = around("pre") + "{{#image" + blanks(t, "img-ws") + name + "}}" + around("post")
 		if rapid.IntRange(0, 5).Draw(t, "img2") == 0 {
-			text += "{{#image " + rapid.SampledFrom(with).Draw(t, "img2n") + "}}" + around("post2")
+			text += "{{#image" + blanks(t, "img2-ws") + rapid.SampledFrom(with).Draw(t, "img2n") + "}}" + around("post2")
 		}
 	}
 	p.Runs = cutRuns(t, text, pal, 3, rapid.IntRange(0, 3).Draw(t, "img-samefmt") > 0)
@@ -231,15 +292,15 @@ func genImagePara(t *rapid.T, pal []*ops.Fmt, c *Case) *Para {
 	return p
 }
 
-func genCellPara(t *rapid.T, names []string, braces bool) Para {
+func genCellPara(t *rapid.T, names []string, braces bool, prefix, suffix string) Para {
 	words := litWords
 	if !braces {
 		words = plainWords
 	}
-	text := genTokens(t, names, 4, braces, words)
+	text := prefix + genTokens(t, names, 4, braces, words) + suffix
 	p := Para{Runs: cutRuns(t, text, cellPalette, 3, false)}
 	if rapid.IntRange(0, 5).Draw(t, "cell-br") == 0 {
-		p.Runs = insertNonText(t, p.Runs, []string{"br"})
+		p.Runs = insertNonText(t, p.Runs, []string{"br", "br", "pic", "fld"})
 	}
 	if rapid.IntRange(0, 3).Draw(t, "cell-sets") == 0 {
 		p.Sets = genSets(t, "")
@@ -256,20 +317,16 @@ func genTable(t *rapid.T, c *Case, depth int, inLoopRow bool) *Table {
 	if !inLoopRow && rapid.IntRange(0, 9).Draw(t, "loop") < 5 {
 		tb.LoopRow = rapid.IntRange(0, tb.Rows-1).Draw(t, "looprow")
 		tb.List = rapid.SampledFrom(listNames).Draw(t, "list")
-		if _, ok := c.Data.Lists[tb.List]; !ok {
-			n := rapid.IntRange(0, 3).Draw(t, "nitems")
-			items := make([]map[string]string, 0, n)
-			for i := 0; i < n; i++ {
-				it := map[string]string{}
-				for _, f := range fieldNames {
-					if rapid.IntRange(0, 4).Draw(t, "field-present") > 0 {
-						it[f] = genValue(t, false)
-					}
-				}
-				items = append(items, it)
-			}
-			c.Data.Lists[tb.List] = items
-		}
+		genList(t, c, tb.List)
+	}
+	// a row that only looks like a loop row (markers in spellings that are no directives): an ordinary row
+	fakeRow, fakeOpen, fakeClose := -1, "", ""
+	if tb.LoopRow < 0 && !inLoopRow && rapid.IntRange(0, 7).Draw(t, "fakeloop") == 0 {
+		fakeRow = rapid.IntRange(0, tb.Rows-1).Draw(t, "fakerow")
+		l := rapid.SampledFrom(listNames).Draw(t, "fakelist")
+		genList(t, c, l)
+		fakeOpen = strings.Replace(rapid.SampledFrom(lookOpen).Draw(t, "fakeopen"), "%s", l, 1)
+		fakeClose = rapid.SampledFrom(lookClose).Draw(t, "fakeclose")
 	}
 	names := varNames
 	if inLoopRow {
@@ -282,18 +339,39 @@ func genTable(t *rapid.T, c *Case, depth int, inLoopRow bool) *Table {
 			cell := &tb.Cells[r][col]
 			if r == tb.LoopRow {
 				// documented row-loop shape: the first cell opens the loop, the last one closes it, cells hold item fields
-				text := genTokens(t, fieldNames, 3, false, plainWords)
-				if col == 0 {
-					text = "{{#each " + tb.List + "}}" + text
+				// cells of 1-2 paragraphs, each cut into up to 5 differently formatted runs (cuts inside the markers and
+				// the fields), with breaks, pictures and field runs between them and paragraph properties
+				np := 1
+				if rapid.IntRange(0, 3).Draw(t, "loop-2p") == 0 {
+					np = 2
 				}
-				if col == tb.Cols-1 {
-					text += "{{/each}}"
+				for pi := 0; pi < np; pi++ {
+					text := genTokens(t, fieldNames, 4, false, plainWords)
+					if rapid.IntRange(0, 7).Draw(t, "loop-look") == 0 {
+						// a field name between braces and blanks is no placeholder: literal text in every generated row
+						text += strings.Replace(rapid.SampledFrom(lookVar).Draw(t, "loop-lookv"), "%s", rapid.SampledFrom(fieldNames).Draw(t, "loop-lookn"), 1)
+					}
+					if col == 0 && pi == 0 {
+						text = "{{#each" + blanks(t, "each-ws") + tb.List + "}}" + text
+						if rapid.IntRange(0, 4).Draw(t, "each-lead") == 0 {
+							text = rapid.SampledFrom(plainWords).Draw(t, "each-leadw") + text // the marker need not open the cell
+						}
+					}
+					if col == tb.Cols-1 && pi == np-1 {
+						text += "{{/each}}"
+						if rapid.IntRange(0, 4).Draw(t, "each-trail") == 0 {
+							text += rapid.SampledFrom(plainWords).Draw(t, "each-trailw")
+						}
+					}
+					p := Para{Runs: cutRuns(t, text, cellPalette, 4, rapid.IntRange(0, 5).Draw(t, "loop-samefmt") == 0)}
+					if rapid.IntRange(0, 2).Draw(t, "loop-nontext") == 0 {
+						p.Runs = insertNonText(t, p.Runs, []string{"br", "br", "pic", "fld"})
+					}
+					if rapid.IntRange(0, 3).Draw(t, "loop-sets") == 0 {
+						p.Sets = genSets(t, "")
+					}
+					cell.Paras = append(cell.Paras, p)
 				}
-				p := Para{Runs: cutRuns(t, text, cellPalette, 3, rapid.IntRange(0, 2).Draw(t, "loop-samefmt") > 0)}
-				if rapid.IntRange(0, 7).Draw(t, "loop-br") == 0 {
-					p.Runs = insertNonText(t, p.Runs, []string{"br"})
-				}
-				cell.Paras = []Para{p}
 				if depth == 0 && rapid.IntRange(0, 9).Draw(t, "loop-nested") == 0 {
 					cell.Nested = genTable(t, c, depth+1, true)
 				}
@@ -307,7 +385,14 @@ func genTable(t *rapid.T, c *Case, depth int, inLoopRow bool) *Table {
 				if depth == 0 && tb.LoopRow < 0 && !inLoopRow && rapid.IntRange(0, 14).Draw(t, "cell-img") == 0 {
 					cell.Paras = append(cell.Paras, *genImagePara(t, cellPalette, c))
 				} else {
-					cell.Paras = append(cell.Paras, genCellPara(t, names, !inLoopRow))
+					prefix, suffix := "", ""
+					if r == fakeRow && col == 0 && i == 0 {
+						prefix = fakeOpen
+					}
+					if r == fakeRow && col == tb.Cols-1 && i == np-1 {
+						suffix = fakeClose
+					}
+					cell.Paras = append(cell.Paras, genCellPara(t, names, !inLoopRow, prefix, suffix))
 				}
 			}
 			if rapid.IntRange(0, 5).Draw(t, "shade") == 0 {
@@ -345,6 +430,25 @@ func genTable(t *rapid.T, c *Case, depth int, inLoopRow bool) *Table {
 		tb.Height = [2]int{1 + rapid.IntRange(0, tb.Rows-1).Draw(t, "rowh-r"), rapid.IntRange(10, 60).Draw(t, "rowh-h")}
 	}
 	return tb
+}
+
+// genList draws the items of a list (0-3 maps holding a drawn subset of the fields) unless the list has them already.
+func genList(t *rapid.T, c *Case, list string) {
+	if _, ok := c.Data.Lists[list]; ok {
+		return
+	}
+	n := rapid.IntRange(0, 3).Draw(t, "nitems")
+	items := make([]map[string]string, 0, n)
+	for i := 0; i < n; i++ {
+		it := map[string]string{}
+		for _, f := range fieldNames {
+			if rapid.IntRange(0, 4).Draw(t, "field-present") > 0 {
+				it[f] = genValue(t, false)
+			}
+		}
+		items = append(items, it)
+	}
+	c.Data.Lists[list] = items
 }
 
 func genValue(t *rapid.T, control bool) string {
@@ -433,6 +537,14 @@ func genCase(t *rapid.T) Case {
 	for _, n := range hfNames {
 		if rapid.IntRange(0, 9).Draw(t, "supply-"+n) < 7 {
 			c.Data.Vars[n] = Val{S: genValue(t, true)}
+		}
+	}
+	for _, n := range condNames {
+		if k := rapid.IntRange(0, 2).Draw(t, "cond-"+n); k > 0 {
+			if c.Data.Conds == nil {
+				c.Data.Conds = map[string]bool{}
+			}
+			c.Data.Conds[n] = k == 1
 		}
 	}
 	switch rapid.IntRange(0, 7).Draw(t, "entry") {
